@@ -87,6 +87,16 @@ CHECKS = {
   text="Model checking by trace validation of artefacts: the C10 program families run on pysnark.zkinterface.backend over p=251 (public set_modulus) and in the bn128, bls12-381 and curve25519 configurations; computation.zkif and circuit.zkif are decoded by a reader written against zkinterface.fbs; TLC decides framing (size prefixes, message types per file, NO witness message in circuit.zkif), header (instance ids 1..n with canonical values, free_variable_id, field_maximum = p-1), constraint faithfulness and canonicity, witness ids/values, satisfaction of decoded constraints, and byte-identity of circuit.zkif between twin runs with equal public and different private values.",
   note="The upstream flatbuffers package is absent: pysnark's builder calls run against shims/flatbuffers (documented wire format); the reader shares no code with it. Certificates harness-supplied, identities decided by TLC.",
   design="5/C11"),
+ "C18": dict(
+  technique="TLC model checking of ExitHook.tla (mechanism of atexitmaybe/final + contract Inv_Exit) whose behaviours enumerate every configuration; one fresh interpreter per configuration, observations judged by TraceExit.tla",
+  text="Model checking with conformance (exhaustive product): ExitHook.tla models the interposed sys.exit / sys.excepthook, the atexit hook and CPython's exit statuses for 12 ways of terminating at 3 positions with autoprove on/off; TLC checks the contract on the model (the SystemExit bypass paths are its only counterexamples) and prints every finished behaviour; each becomes one script run in a fresh interpreter per file-writing backend (snarkjs, zkinterface, qaptools); exit status, presence and decoded size of the artefacts vs what had been traced, number of proving steps and hook errors are judged by TLC against the contract and compared with the model's prediction.",
+  note="Known finding: raise SystemExit(n!=0) / builtin exit(n!=0) still prove. qaptools executables are failing stubs (artefact = schedule + per-function equation files written by the backend's own splitting step).",
+  design="5/C18", category="model_checking"),
+ "C19": dict(
+  technique="TLC model checking of Select.tla (transcribed three-stage selection + contract) whose states enumerate every configuration; one fresh interpreter per configuration, outcomes judged by TraceSelect.tla",
+  text="Model checking with conformance (exhaustive product): Select.tla holds the registry, the selection mechanism and the contract (pre-import wins; known name selects or fails loudly; unknown name reported then auto-detection in registry order; reported name identifies module and field); TLC checks the contract on the mechanism and enumerates configurations (pre-imports: none/each single backend, ordered pairs in thorough; PYSNARK_BACKEND: 8 names, unset, unknown; 8 subsets of optional dependencies); each is run in a fresh interpreter, reporting name, module, modulus, interface attributes, messages and the module whose constraint list grows; TLC judges contract, interface completeness and sink.",
+  note="libsnark / flatbuffers are import-only stand-ins and qaptools executables stubs: only selection is judged. IPython branch not exercised. Known finding: specific backend modules are reported under their generic name.",
+  design="5/C19", category="model_checking"),
 }
 
 NOT_YET = "check not built yet in this round (planned, see DESIGN.md section 5)"
